@@ -1,9 +1,57 @@
-(* C01 (serix binary part) - Encode/Decode round trip and determinism. Statements only. *)
-From Coq Require Import List NArith ZArith Bool.
-From Verif.C01_Serix Require Import Model Layout.
+(* C01 (serix binary part) - Encode/Decode round trip and determinism of the model of serix. Statements only. *)
+From Coq Require Import List NArith ZArith Bool Permutation.
+From Verif.C01_Serix Require Import Model Bound SortLex Determinism RoundTrip.
 Import ListNotations.
 Open Scope N_scope.
 
-Theorem C01_layout_placeholder_bool : forall val d b, encode val d SBool (VBool b) = Ok [if b then 1 else 0].
-Proof. exact layout_bool. Qed.
-Print Assumptions C01_layout_placeholder_bool.
+(* Round trip, for ALL schemas of the modelled fragment, both validation modes, every value the encoder accepts and
+   any bytes following the encoding: Decode returns the canonical form of the value (map entries and auto-sorted
+   slices in byte-lexical order of their encodings, ints reduced to their width, time stamps clamped) and reports
+   exactly the number of bytes Encode produced.
+   Guards: wf (type codes fit their denotation; interface alternatives carry the code they are registered under;
+   sequence elements are not zero-size), good (map keys pairwise different; sequence elements not empty on the wire),
+   total encoding shorter than 2^32 bytes (the optional marker is a uint32).
+   PARTIAL in one respect only: no_must (no must-occur rule on a sequence); see notes/c01bin.md. *)
+Theorem C01_roundtrip_partial : forall s, wf s -> no_must s -> forall val d tot v b rest,
+  good val s v -> encode val d s v = Ok b -> N.of_nat (length b) < W32 ->
+  decode val tot s (b ++ rest) = Ok (canon val s v, length b).
+Proof. exact roundtrip. Qed.
+
+Definition C01_roundtrip_full_statement : Prop := forall s, wf s -> forall val d tot v b rest,
+  good val s v -> encode val d s v = Ok b -> N.of_nat (length b) < W32 ->
+  decode val tot s (b ++ rest) = Ok (canon val s v, length b).
+
+Theorem C01_roundtrip_api_partial : forall s, wf s -> no_must s -> forall val v b,
+  good val s v -> Encode val s v = Ok b -> N.of_nat (length b) < W32 ->
+  Decode val s b = Ok (canon val s v, length b).
+Proof. exact Roundtrip. Qed.
+
+(* Determinism: Go map iteration order = an arbitrary permutation of the entry list. *)
+Theorem C01_deterministic : forall val d l r k ve m1 m2 b, Permutation m1 m2 ->
+  encode val d (SMap l r k ve) (VMap m1) = Ok b -> encode val d (SMap l r k ve) (VMap m2) = Ok b.
+Proof. exact encode_map_perm. Qed.
+
+Theorem C01_deterministic_sorted_slice : forall d l r e vs1 vs2 b,
+  ar_autosort r = true -> ar_lex r = true -> ar_must r = [] -> Permutation vs1 vs2 ->
+  encode false d (SSlice l r e) (VL vs1) = Ok b -> encode false d (SSlice l r e) (VL vs2) = Ok b.
+Proof. exact encode_sorted_slice_perm. Qed.
+
+(* non-vacuity of the guards, on a schema with a map, an optional, an auto-sorted slice and an interface *)
+Example C01_roundtrip_nonvacuous :
+  wf ex_schema /\ no_must ex_schema /\ good true ex_schema ex_value /\
+  exists b, Encode true ex_schema ex_value = Ok b /\ N.of_nat (length b) < W32 /\
+            Decode true ex_schema b = Ok (canon true ex_schema ex_value, length b) /\ canon true ex_schema ex_value <> ex_value.
+Proof. exact roundtrip_nonvacuous. Qed.
+
+(* What the zero-size guard excludes is a real defect of the format (finding zero-size-element-roundtrip-value). *)
+Theorem C01_refuted_optional_zero_size :
+  let s := SStruct None (FCons FOpt (SPtr (SStruct None FNil)) FNil) in
+  let v := VL [VL []] in
+  Encode true s v = Ok [0; 0; 0; 0] /\ Decode true s [0; 0; 0; 0] = Ok (VL [VNil], 4%nat) /\ VL [VNil] <> v.
+Proof. exact refuted_optional_zero_size. Qed.
+
+Print Assumptions C01_roundtrip_partial.
+Print Assumptions C01_roundtrip_api_partial.
+Print Assumptions C01_deterministic.
+Print Assumptions C01_deterministic_sorted_slice.
+Print Assumptions C01_refuted_optional_zero_size.
